@@ -120,7 +120,7 @@ def option_test_edges(ctx, body, is_target, ignore_debug=True, accessors=None):
                 kind = "discr"
             elif not pl["proj"]:
                 # discriminant of a local: result of as_ref/as_mut on X, or of Try::branch on such
-                dd = body.unique_def(pl["local"])
+                dd = body.source_def({"k": "move", "place": pl})      # through whole-local moves (an inlined accessor's return slot)
                 if dd is not None and dd[1] == "call":
                     c = ctx.call_at(body, dd[0].bb)
                     if c.name in (OPT + "as_ref", OPT + "as_mut") and c.arg_path(0) is not None and is_target(c.arg_path(0)):
